@@ -194,6 +194,32 @@ def check(ctx):
                 ctx.fail("oracle", f"C05/oracle/recovery-large-amplitude/order{bad_m[0]}", f"{P.sc['name']} orders {orders}: displacements of 2.5 length units (Taylor model exact for any size): fc{bad_m[0]} not recovered (relative error {errs[bad_m[0]]:.2e})",
                          replay={**P.describe(), "orders": list(orders), "disps": d_big.tolist(), "rel_err": errs[bad_m[0]]}, has_input=True)
 
+            # datasets with structure a shortcut might key on: displacements measured from their mean over the snapshots (every
+            # component sums to zero, yet not symmetric under u -> -u), triples {u, -u/2, -u/2}, and true +/- pairs
+            raw = rng.normal(size=(n, P.N, 3)) * 0.1
+            u_ = rng.normal(size=(n // 3 + 1, P.N, 3)) * 0.1
+            h_ = rng.normal(size=(n // 2 + 1, P.N, 3)) * 0.1
+            for sname, d_s in (("centred", raw - raw.mean(axis=0)), ("zero-sum-triples", np.concatenate([u_, -u_ / 2, -u_ / 2])), ("plus-minus-pairs", np.concatenate([h_, -h_]))):
+                Xs = dense_design(P.basis, orders, d_s)
+                svs = np.linalg.svd(Xs, compute_uv=False)
+                if svs[-1] < 1e-8 * svs[0]:
+                    ctx.count("skipped-ill-conditioned")
+                    continue
+                f_s = forces_from_fc(truth, d_s)
+                ctx.case({"cell": P.sc["name"], "orders": list(orders), "structured": sname, "n_snap": int(len(d_s))}, nontrivial=True)
+                ctx.count("recovery-structured:" + sname)
+                try:
+                    o = P.new(d_s, f_s)
+                    o.solve(orders=list(orders), is_compact_fc=False)
+                    errs = {m: float(np.abs(o.force_constants[m] - truth[m]).max() / max(np.abs(truth[m]).max(), 1e-300)) for m in orders}
+                except np.linalg.LinAlgError:
+                    errs = {}
+                    ctx.count("skipped-singular")
+                bad_m = [m for m, e in errs.items() if not e <= 1e-6]
+                if bad_m:
+                    ctx.fail("oracle", f"C05/oracle/recovery-structured/{sname}/order{bad_m[0]}", f"{P.sc['name']} orders {orders}, '{sname}' displacements ({len(d_s)} snapshots, design of full rank): fc{bad_m[0]} not recovered (relative error {errs[bad_m[0]]:.2e})",
+                             replay={**P.describe(), "orders": list(orders), "dataset": sname, "disps": d_s.tolist(), "rel_err": errs[bad_m[0]]}, has_input=True)
+
     # ---- ground truths drawn from the INDEPENDENT reference admissible space (reference.py), small cells
     import spglib
     from reference import atom_perm_by_matching, projector_onto_admissible
